@@ -76,26 +76,27 @@ var kindNames = [...]string{"start", "lock", "rlock", "wlock-announce", "wlock",
 func (k Kind) String() string { return kindNames[k] }
 
 type Thread struct {
-	Name     string
-	s        *Sched
-	gid      uint64
-	gate     chan struct{}
-	parked   bool
-	done     bool
-	started  bool
-	children int
-	kind     Kind
-	obj      any
-	site     string
-	enabled  func() bool
-	Sites    []string // last few synchronisation call sites (function names)
-	Tag      string   // harness label (e.g. "cmd", "client", "probe")
-	PanicVal any
-	PanicStk string
-	Steps    int
-	prio     int // deprioritisation stamp: a preempted thread goes behind the others
-	alts     int // > 1: the thread is parked at a choice point with that many alternatives
-	choice   int
+	Name       string
+	s          *Sched
+	gid        uint64
+	gate       chan struct{}
+	parked     bool
+	done       bool
+	started    bool
+	children   int
+	kind       Kind
+	obj        any
+	site       string
+	enabled    func() bool
+	Sites      []string // last few synchronisation call sites (function names)
+	Tag        string   // harness label (e.g. "cmd", "client", "probe")
+	PanicVal   any
+	PanicStk   string
+	Steps      int
+	killPoints int
+	prio       int // deprioritisation stamp: a preempted thread goes behind the others
+	alts       int // > 1: the thread is parked at a choice point with that many alternatives
+	choice     int
 }
 
 type Dev struct {
@@ -130,8 +131,12 @@ type Sched struct {
 	// a second default schedule from which the same deviation bounds reach other interleavings
 	Reverse bool
 	// results
-	HorizonHit  bool
-	Deadlock    bool
+	HorizonHit bool
+	Deadlock   bool
+	// Livelock: one virtual instant took more than MaxStepsPerInstant scheduling steps: some thread spins through
+	// scheduling points without ever blocking or letting time pass. LivelockAt names the site it was last seen at.
+	Livelock    bool
+	LivelockAt  string
 	BadReplay   string
 	Leaked      []string
 	StateHashes map[uint64]struct{}
@@ -335,6 +340,11 @@ func Point(kind Kind, obj any, enabled func() bool) bool {
 		if kind == KHarness {
 			runtime.Goexit()
 		}
+		// a thread that keeps spinning through points during teardown never finishes by itself
+		t.killPoints++
+		if t.killPoints > 5000 {
+			runtime.Goexit()
+		}
 		return true
 	}
 	site := callSite()
@@ -440,7 +450,12 @@ func (s *Sched) Panics() []*Thread {
 // Run executes main as the first managed thread and schedules until every
 // managed thread has finished. Must be called from the root goroutine of a
 // synctest bubble.
+// MaxStepsPerInstant bounds the scheduling steps taken without virtual time passing (see Sched.Livelock).
+const MaxStepsPerInstant = 200000
+
 func (s *Sched) Run(main func()) {
+	var instant time.Duration = -1
+	instantSteps := 0
 	s.start = time.Now()
 	s.wake = make(chan struct{}, 1) // must be created inside the bubble
 	cur.Store(s)
@@ -602,6 +617,19 @@ func (s *Sched) Run(main func()) {
 		}
 		if now > s.Horizon {
 			s.HorizonHit = true
+			s.mu.Unlock()
+			s.killing.Store(true)
+			continue
+		}
+		if now != instant {
+			instant, instantSteps = now, 0
+		}
+		instantSteps++
+		if instantSteps > MaxStepsPerInstant {
+			s.Livelock, s.HorizonHit = true, true
+			if choice < len(items) {
+				s.LivelockAt = items[choice].t.Name + "@" + items[choice].t.site
+			}
 			s.mu.Unlock()
 			s.killing.Store(true)
 			continue
